@@ -78,11 +78,42 @@ impl Fault {
 
 type Versions = Vec<BTreeMap<String, Vec<u8>>>;
 
-fn apply_fault(data_dir: &Path, thread: &str, f: &Fault, versions: &Versions) {
+/// Applies the fault and says what it did to the file as it was: the class depends on the content
+/// the fault met (a "cut at 0.8 % of the length" of a 37-byte file leaves an empty file, which is a
+/// well-formed prefix, not a torn one). `noop` = nothing to damage.
+fn apply_fault(data_dir: &Path, thread: &str, f: &Fault, versions: &Versions) -> String {
     let dir = data_dir.join("continuity_streams");
     let path = |k: &str| dir.join(format!("{thread}.{k}"));
+    if let Fault::Truncate(k, pm) = f {
+        if *pm < 2000 {
+            let Ok(b) = std::fs::read(path(k)) else { return "noop".into() };
+            let mut n = (b.len() as u64 * pm / 1000) as usize;
+            if k.ends_with(".jsonl") {
+                // torn = strictly inside a line; a file too small to be cut inside a line is left alone
+                if b.len() < 3 {
+                    return "noop".into();
+                }
+                n = n.clamp(1, b.len() - 1);
+                while n > 1 && (b[n - 1] == b'\n' || b[n] == b'\n') {
+                    n -= 1;
+                }
+                if b[n - 1] == b'\n' || b[n] == b'\n' {
+                    return "noop".into();
+                }
+                let _ = std::fs::write(path(k), &b[..n]);
+                return format!("torn:{k}");
+            }
+            // binary ordinal index: 32-byte header, 24-byte records
+            let _ = std::fs::write(path(k), &b[..n.min(b.len())]);
+            let on_boundary = n == 0 || (n >= 32 && (n - 32) % 24 == 0);
+            return if on_boundary { format!("prefix-only:{k}") } else { format!("torn:{k}") };
+        }
+    }
     match f {
         Fault::Delete(k) => {
+            if !path(k).exists() {
+                return "noop".into();
+            }
             let _ = std::fs::remove_file(path(k));
         }
         Fault::Truncate(k, pm) => {
@@ -107,15 +138,7 @@ fn apply_fault(data_dir: &Path, thread: &str, f: &Fault, versions: &Versions) {
                     }
                     pos
                 } else {
-                    // torn: strictly inside a line. A cut on a line boundary, or right before the
-                    // newline of a complete line, leaves a well-formed prefix — a different class
-                    let mut n = (b.len() as u64 * pm / 1000) as usize;
-                    if k.ends_with(".jsonl") {
-                        while n > 1 && n < b.len() && (b[n - 1] == b'\n' || b[n] == b'\n') {
-                            n -= 1;
-                        }
-                    }
-                    n
+                    b.len() // (cuts below 2000 are handled above)
                 };
                 let _ = std::fs::write(path(k), &b[..n.min(b.len())]);
             }
@@ -131,6 +154,7 @@ fn apply_fault(data_dir: &Path, thread: &str, f: &Fault, versions: &Versions) {
             }
         }
     }
+    f.class()
 }
 
 fn save_version(data_dir: &Path, thread: &str, versions: &mut Versions) {
@@ -489,9 +513,11 @@ fn one_case(rep: &mut Report, model: &mut Model, rng: &mut Rng, case_no: u64, si
         // start every round from the unfaulted directory
         let dir = scratch.path().join(format!("round{ri}"));
         copy_dir(&base, &dir);
+        let mut effective: Vec<String> = Vec::new();
         for f in faults {
-            apply_fault(&dir, &thread, f, &versions);
-            rep.count(&format!("fault_{}", f.class().split(':').next().unwrap().replace('-', "_")));
+            let c = apply_fault(&dir, &thread, f, &versions);
+            rep.count(&format!("fault_{}", c.split(':').next().unwrap().replace('-', "_")));
+            effective.push(c);
         }
         let append_seed = rng.next();
         let do_appends = |d: &Path| {
@@ -559,7 +585,15 @@ fn one_case(rep: &mut Report, model: &mut Model, rng: &mut Rng, case_no: u64, si
                 if keep_appends && reproduces(&keep, false) {
                     keep_appends = false;
                 }
-                let mut cs: Vec<String> = faults.iter().zip(keep.iter()).filter(|(_, k)| **k).map(|(f, _)| f.class()).collect();
+                // what the kept faults do when applied on their own, in order
+                let mut cs: Vec<String> = {
+                    let d2 = scratch.path().join("classify");
+                    let _ = std::fs::remove_dir_all(&d2);
+                    copy_dir(&base, &d2);
+                    let v: Vec<String> = faults.iter().zip(keep.iter()).filter(|(_, k)| **k).map(|(f, _)| apply_fault(&d2, &thread, f, &versions)).filter(|c| c != "noop").collect();
+                    let _ = std::fs::remove_dir_all(&d2);
+                    v
+                };
                 cs.sort();
                 cs.dedup();
                 if !cs.is_empty() || keep_appends {
@@ -571,9 +605,9 @@ fn one_case(rep: &mut Report, model: &mut Model, rng: &mut Rng, case_no: u64, si
             } else if let Some(m) = minimal {
                 m
             } else if faults.len() == 1 && !*append_after {
-                faults[0].class()
+                effective[0].clone()
             } else {
-                let mut cs: Vec<String> = faults.iter().map(|f| f.class()).collect();
+                let mut cs: Vec<String> = effective.iter().filter(|c| *c != "noop").cloned().collect();
                 cs.sort();
                 cs.dedup();
                 format!("{}{}", cs.join("+"), if *append_after { "+appends" } else { "" })
